@@ -638,6 +638,14 @@ static void iauth_xquery_config_service(const char *name, const char *type)
     srv->configured = 1;
 }
 
+static void iauth_xquery_services_changed(struct conf_node_base *node);
+
+/** Handle an in-place change of one service's protocol. */
+static void iauth_xquery_service_changed(struct conf_node_base *node)
+{
+    iauth_xquery_services_changed(&node->parent->base);
+}
+
 static void iauth_xquery_services_changed(struct conf_node_base *node)
 {
     struct iauth_xquery_service *srv;
@@ -656,6 +664,11 @@ static void iauth_xquery_services_changed(struct conf_node_base *node)
         for (jj = set_first(&conf.root->contents); jj != NULL; jj = set_next(jj)) {
             struct conf_node_base *base = set_node_data(jj);
 
+            /* The section's own hook only runs when entries come or
+             * go; watch each entry for a changed value as well.
+             */
+            if (!base->hook)
+                base->hook = iauth_xquery_service_changed;
             if (base->type == CONF_STRING) {
                 struct conf_node_string *str = set_node_data(jj);
                 iauth_xquery_config_service(str->base.name, str->value);
